@@ -31,6 +31,11 @@ pub fn emit(out: &mut Out, worker: &mut Worker, text: &str, rng: &mut Rng, thoro
     let mut ilines = Vec::new();
     let mut accepted = Vec::new();
     let mut hfail: Option<String> = grammar::api_consistent(&g).err();
+    if prop == "C04" {
+        if let Some(e) = NP_FAIL.lock().unwrap().take() {
+            hfail.get_or_insert(e);
+        }
+    }
     let mut n_acc = 0;
     let mut n_err = 0;
     let mut n_div = 0;
@@ -193,6 +198,8 @@ fn shape_of(g: &cfgrammar::yacc::YaccGrammar<u32>, t: &crate::gen::parse::PTree)
     }
 }
 
+static NP_FAIL: std::sync::Mutex<Option<String>> = std::sync::Mutex::new(None);
+
 pub fn run_prop(a: &Args, prop: &str, pnum: u64) {
     let mut out = Out::new(&a.out);
     let mut worker = Worker::new();
@@ -206,6 +213,11 @@ pub fn run_prop(a: &Args, prop: &str, pnum: u64) {
         }
         out.finish(&a.out);
         return;
+    }
+    if a.shard == 0 && prop == "C04" {
+        // the command-line tool against the library on the same sources (rides on the first case)
+        out.count("nimbleparse_end_to_end_runs");
+        *NP_FAIL.lock().unwrap() = super::np::check(&a.out);
     }
     if a.shard == 0 {
         let mut rng = Rng::for_case(a.seed, pnum, 0);
